@@ -449,7 +449,8 @@ def check_merge(case, st):
   fails = []
   for c, d in sorted(cl.items()):
     cause = diagnose_merge(op, descs, c) if (c not in ("not_float", "float_from_quantized", "fields") and not st.get("nobrute")) else "-"
-    sig = {"site": "merge." + op, "clause": c, "cause": cause, "out": lo.kind if lo is not None else "-"}
+    sig = {"site": "merge." + op, "clause": c, "cause": cause, "out": lo.kind if lo is not None else "-",
+           "n_ops": "2" if len(descs) <= 2 else ">2"}
     fails.append((sub, sig, d + "; " + ctxs))
   return fails, out
 
